@@ -101,6 +101,8 @@ def r15_1(ctx, g):
                             viol.append((f, c))
     for f, c in viol:
         ctx.violated("R15.1", f.where(c), f"`{norm(c)[:70]}` mutates a node's adjacency outside Node.add_from_*/remove_from_*: the other end of the link is not updated with it", key_of(f, f"raw-adjacency-write:{norm(c)[:80]}"))
+    if len(owners) != 4 and not viol:
+        raise AnalysisError("R15.1", "gaftools/gfa.py", f"cannot find the four methods that own the adjacency sets (found {sorted(owners)}): the sets may be changed through a helper that receives them as an argument, which this rule does not follow")
     ctx.check(len(owners) == 4, "R15.1", "gaftools/gfa.py", "the adjacency sets are mutated only by the four Node.add_from_* / remove_from_* methods", f"gaftools.gfa::adjacency-owners:{sorted(owners)}", owners=sorted(owners), mutation_sites=n)
     # callers of the four methods: add_edge / remove_edge, or private helpers that only they call
     allowed = {"GFA.add_edge", "GFA.remove_edge"}
@@ -289,6 +291,20 @@ def r15_3(ctx, g):
                             alias = s.targets[0].id
                             if any(isinstance(c, ast.Call) and isinstance(c.func, ast.Attribute) and c.func.attr in ("remove", "discard", "pop") and norm(c.func.value) == alias for c in walk_own(f.node)):
                                 purge.setdefault(r, []).append((f, s))
+    # the key tested for presence is the key stored under: an id converted (`x = str(x)`) only after the `x in self` test means the
+    # test saw one form and the store uses another (an existing node is missed and replaced by an empty one, its links orphaned)
+    for f in repo.module("gaftools.gfa").funcs.values():
+        if f.cls != init.cls:
+            continue
+        for iff in walk_own(f.node):
+            if not isinstance(iff, ast.If):
+                continue
+            for cmp_ in ast.walk(iff.test):
+                if isinstance(cmp_, ast.Compare) and len(cmp_.ops) == 1 and isinstance(cmp_.ops[0], (ast.In, ast.NotIn)) and isinstance(cmp_.left, ast.Name) and norm(cmp_.comparators[0]).startswith("self"):
+                    k_ = cmp_.left.id
+                    for st in walk_stmts(iff.body + iff.orelse):
+                        if isinstance(st, ast.Assign) and norm(st.targets[0]) == k_ and isinstance(st.value, ast.Call) and isinstance(st.value.func, ast.Name) and st.value.func.id in ("str", "int", "repr") and norm(st.value.args[0]) == k_ if isinstance(st, ast.Assign) and isinstance(st.value, ast.Call) and st.value.args else False:
+                            ctx.violated("R15.3", f.where(st), f"`{k_}` is tested for presence (`{norm(cmp_)}`) in the form the caller passed and converted with `{norm(st.value)}` only afterwards: an id passed in the other form misses the existing node, and a fresh empty node replaces it while its neighbours still list it", key_of(f, f"key-converted-after-test:{k_}"))
     node_regs = [r for r in fill if r != "contigs"]
     ctx.require_count("R15.3", len(node_regs), 3, "gaftools/gfa.py", "registries filled with node ids on the add/load path (nodes, edge_tags, contig_to_nodes)")
     for r in sorted(node_regs):
@@ -494,6 +510,18 @@ def r15_6(ctx, g):
     # low-link updates: back edge -> min with discovery of the target; tree edge finished -> min with the child's low
     # every store into low[...] after its initialisation lowers it: low[x] = min(low[x], v) — also spelled
     # `if v < low[x]: low[x] = v` / `if low[x] > v: low[x] = v`
+    import re as _re
+
+    # the low-link table by role: the table T with an update T[a] <- min(T[a], T[b]) / `if T[b] < T[a]: T[a] = T[b]`
+    LOW = "low"
+    for st in walk_stmts(f.node.body):
+        v_ = None
+        if isinstance(st, ast.Assign) and len(st.targets) == 1 and isinstance(st.targets[0], ast.Subscript) and isinstance(st.targets[0].value, ast.Name):
+            t_ = st.targets[0].value.id
+            if isinstance(st.value, ast.Call) and norm(st.value.func) == "min" and len(st.value.args) == 2 and all(isinstance(x_, ast.Subscript) and isinstance(x_.value, ast.Name) and x_.value.id == t_ for x_ in st.value.args):
+                LOW = t_
+            elif isinstance(st.value, ast.Subscript) and isinstance(st.value.value, ast.Name) and st.value.value.id == t_ and norm(st.value) != norm(st.targets[0]):
+                LOW = t_
     updates = set()
     others = []
     for st in walk_stmts(f.node.body):
@@ -501,11 +529,11 @@ def r15_6(ctx, g):
             a = st.body[0]
             tgt, val = norm(a.targets[0]), norm(a.value)
             l_, r_ = norm(st.test.left), norm(st.test.comparators[0])
-            if tgt.startswith("low[") and ((isinstance(st.test.ops[0], ast.Lt) and (l_, r_) == (val, tgt)) or (isinstance(st.test.ops[0], ast.Gt) and (l_, r_) == (tgt, val))):
+            if tgt.startswith(LOW + "[") and ((isinstance(st.test.ops[0], ast.Lt) and (l_, r_) == (val, tgt)) or (isinstance(st.test.ops[0], ast.Gt) and (l_, r_) == (tgt, val))):
                 updates.add((tgt, val))
     guarded = {id(st.body[0]) for st in walk_stmts(f.node.body) if isinstance(st, ast.If) and not st.orelse and len(st.body) == 1}
     for st in walk_stmts(f.node.body):
-        if isinstance(st, ast.Assign) and len(st.targets) == 1 and norm(st.targets[0]).startswith("low["):
+        if isinstance(st, ast.Assign) and len(st.targets) == 1 and norm(st.targets[0]).startswith(LOW + "["):
             tgt = norm(st.targets[0])
             v = st.value
             if isinstance(v, ast.Call) and norm(v.func) == "min" and len(v.args) == 2 and tgt in (norm(v.args[0]), norm(v.args[1])):
@@ -515,11 +543,16 @@ def r15_6(ctx, g):
                 updates.add((tgt, norm(v)))  # a minimum that does not include the low-link itself: not a lowering of it
             elif id(st) in guarded and (tgt, norm(v)) in updates:
                 pass
-            elif norm(v).startswith("discovery[") or isinstance(v, ast.Name) or isinstance(v, ast.BinOp) or (isinstance(v, ast.Call) and norm(v.func) == "len"):
+            elif (isinstance(v, ast.Subscript) and isinstance(v.value, ast.Name) and v.value.id != LOW) or isinstance(v, ast.Name) or isinstance(v, ast.BinOp) or (isinstance(v, ast.Call) and norm(v.func) == "len"):
                 pass  # initialisation with the node's own discovery number
             else:
                 others.append(norm(st))
+    # by role: one update lowers low[c] by the discovery number of some other node (a back edge), one propagates low[c] to low[p]
+    prop = [(t_, v_) for t_, v_ in updates if v_.startswith(LOW + "[") and v_ != t_]
+    back = [(t_, v_) for t_, v_ in updates if _re.fullmatch(r"\w+\[\w+\]", v_) and not v_.startswith(LOW + "[")]
     want = {("low[child]", "discovery[nn]"), ("low[parent]", "low[child]")}
+    if len(prop) == 1 and len(back) == 1 and back[0][0] == prop[0][1] and prop[0][0] != prop[0][1] and back[0][1].split("[")[1] != back[0][0].split("[")[1] and back[0][1].split("[")[1] != prop[0][0].split("[")[1]:
+        want = {back[0], prop[0]}
     if others or not updates:
         raise AnalysisError("R15.6", f.where(), f"cannot read the low-link updates of biccs ({others[:2]})")
     ctx.check(want <= updates and not (updates - want), "R15.6", f.where(), "low-links are lowered by back edges (discovery of the target) and propagated from a finished child to its parent", key_of(f, f"low-link-updates:{sorted(updates - want)}:{sorted(want - updates)}"), updates=sorted(updates))
@@ -590,6 +623,16 @@ def r15_8(ctx, g):
         after = ac.node.body[ac.node.body.index(l) + 1 :]
         reset = any(isinstance(st, ast.Expr) and norm(st.value) in ("self.set_visited(False)", "self.set_visited()", "self.set_visited(visited=False)") for st in after)
         appended = any(isinstance(c, ast.Call) and isinstance(c.func, ast.Attribute) and c.func.attr == "append" and any(x is calls[0] for x in ast.walk(c)) for c in ast.walk(l)) if calls else False
+        if calls and not appended:
+            # the result bound to a local first: `component = self.find_component(n); if len(component) >= 1: comps.append(component)`
+            asg_ = [st_ for st_ in ast.walk(l) if isinstance(st_, ast.Assign) and st_.value is calls[0] and len(st_.targets) == 1 and isinstance(st_.targets[0], ast.Name)]
+            if asg_:
+                v_ = asg_[0].targets[0].id
+                for c_ in ast.walk(l):
+                    if isinstance(c_, ast.Call) and isinstance(c_.func, ast.Attribute) and c_.func.attr == "append" and c_.args and norm(c_.args[0]) == v_:
+                        extra_ = [canon_test(t_, p_) for t_, p_ in guards_of(ac.node, _stmt_with(ac, c_)) if canon_test(t_, p_)[0] not in flag_txts]
+                        if all(g_ in ((f"len({v_}) >= 1", True), (f"len({v_}) > 0", True), (f"len({v_}) != 0", True), (v_, True), (f"len({v_}) == 0", False), (f"len({v_})", True)) for g_ in extra_):
+                            appended = True  # (an empty result is not a component: leaving it out keeps the partition)
         if not it_ok or not calls:
             raise AnalysisError("R15.8", ac.where(l), f"the search loop of all_components iterates `{norm(l.iter)[:40]}` / calls find_component with something else than the loop's node")
         ok = it_ok and guarded and reset and appended
